@@ -281,6 +281,9 @@ pub fn fetch_scenarios() -> Vec<FetchScenario> {
         bad("certificate_with_foreign_payload_then_other_peer", Lie::SwappedPayload),
         bad("no_answer_timeout_then_other_peer", Lie::Stall),
         bad("peer_vanishes_mid_call_then_other_peer", Lie::StallThenDisconnect),
+        // the silent peer stores nothing above the block it is silent about: no other call on its connection can
+        // fail and tear the connection down, only the get_block timeout of that very call releases the request
+        FetchScenario { name: "no_answer_on_the_peers_last_block_then_other_peer", target: 2, first: vec![PeerSpec { lo: 0, hi: 2, lie: Lie::Stall }], wait_read: Some(2), second: vec![PeerSpec { lo: 0, hi: 4, lie: Lie::Honest }] },
         FetchScenario { name: "flaky_peer_reconnects", target: 2, first: vec![PeerSpec { lo: 0, hi: 4, lie: Lie::FlakyOnce }], wait_read: None, second: vec![] },
         // two partial peers: one has only 0..1, the other has pruned everything below 3; nobody has 2
         // until the late peer arrives. Requests must reach a peer only for numbers it announced.
@@ -464,6 +467,9 @@ async fn one_fetch(seed: u64, chn: &c08::Chain, canon: &[validator::Block], sc: 
             want.iter().all(|n| st.contains_key(n))
         })
         .await;
+        if std::env::var("VERIF_DEBUG").is_ok() {
+            eprintln!("[{}] done={done} stored {:?} reads {:?} inbound {:?}", sc.name, n_store_ref.stored().keys().collect::<Vec<_>>(), peers.iter().map(|p| p.store.reads()).collect::<Vec<_>>(), net_ref.inbound_keys().len());
+        }
         if !done {
             viol_ref.push((
                 "request_lost".into(),
